@@ -58,6 +58,10 @@ Definition sclone (c : shandle) : shandle :=
 Definition sclone_cost (tr : bool) (c : shandle) : Z * Z :=
   match c with (d, OO _) => (b2z (nonempty d), ec tr (len d)) | _ => (0, 0)%Z end.
 
+(* which handles convert to std::borrow::Cow::Borrowed: borrows, and owned values without a buffer
+   (necessarily empty: the result borrows the empty slice) *)
+Definition std_borrowed (o : org) : bool := match o with OB | OO false => true | _ => false end.
+
 Definition sout := (res * Z * Z)%type.
 
 Definition sstep (tr : bool) (s : sst) (o : op) : sout * sst :=
@@ -91,6 +95,12 @@ Definition sstep (tr : bool) (s : sst) (o : op) : sout * sst :=
       match sget s h with
       | None => ((RBad, 0, 0)%Z, s)
       | Some c => ((RContent (fst c), fst (release tr s c), snd (release tr s c)), sconsume s h)
+      end
+  | IntoStdCow h =>
+      match sget s h with
+      | None => ((RBad, 0, 0)%Z, s)
+      | Some c => if std_borrowed (snd c) then ((RStd true (fst c), 0, 0)%Z, sconsume s h)
+                  else ((RStd false (fst c), fst (release tr s c), snd (release tr s c)), sconsume s h)
       end
   | Drop h =>
       match sget s h with
